@@ -52,6 +52,8 @@ structure BaseOps where
   size : VB → Nat
   capacity : VB → Nat
   begin : VB → PtrV
+  /-- inline (small) state? constantly false for amc::vector, true for FixedCapacityVector -/
+  isSmall : VB → Bool
   incrSize : VB → VB
   decrSize : VB → VB
   setSize : VB → Nat → VB
